@@ -62,6 +62,14 @@ def progress_set(tier):
                 hk = "and_then" if mac.startswith("try") else "then"
                 p = fp.build(mac, ds, gated="one", handler=hk)
                 out.append(aprog("%s/%s/handler" % (mac, fp.pname(ds)), p, ds, "one", handler=hk))
+    # wide steps (17 and 33 branches, the first and the last one pending, all others ready): every branch is polled up to its pending
+    # point in the first round, whatever its index, and the future completes under both release orders
+    for mac in ("join_async", "try_join_async"):
+        for n in (17, 33):
+            ds = (1,) * n
+            hk = "map" if mac.startswith("try") else "then"  # (a tuple of more than 12 elements has no Debug: the handler returns a Vec)
+            p = fp.build(mac, ds, gated="ends", handler=hk)
+            out.append(aprog("%s/wide%d/ends" % (mac, n), p, ds, "ends", handler=hk))
     return out
 
 
@@ -118,6 +126,8 @@ def real_tokio_programs(tier):
     progs = []
     rows = [[0] * 48, [0] * 32 + [1] * 16, [0] * 32 + [(i % 4) for i in range(16)], [0] * 32 + [(3 - i % 4) for i in range(16)], [0] * 32 + [(i * 7) % 3 for i in range(16)]]
     for a in progress_set(tier):
+        if "/wide" in a.id:
+            continue  # (fault slots of wide programs wrap around the input table the pending counts live in)
         mac = a.meta["macro"]
         d, r = a.meta["dsl"], a.meta["ref"]
         is_try = mac.startswith("try")
